@@ -152,6 +152,11 @@ func checkC19(c *Check) {
 	c.Floor("IncLogins call sites", 2, ninc)
 	// one pass of the dispatcher per delivered line
 	c.Floor("functions between the ingester callback and the dispatcher", 2, lineReachesDispatcher(c))
+	// the keyword predicates see the line as written: white space is not
+	// normalised on the way (a line with a tab where the keyword has a
+	// blank is not a recognised line), and the line is not rewritten
+	spacingRule(c)
+	importRules(c, "C17", checkC17, "", "line-integrity")
 	// IncLogins faithful
 	incFaithful(c, inc)
 }
